@@ -1,5 +1,7 @@
 import HC.Proto.H11
 import HC.Proto.H11Close
+import HC.Conn.Shell
+import HC.Extracted.Runtime
 /-!
 # C06 — HTTP/1.x persistent-connection and pipelining safety
 
@@ -754,6 +756,307 @@ theorem app_close_turns_keepalive_off (st : St) (status : Nat) (hdrs : Headers)
     rw [hl] at hok
     simp at hok
 
+/-! ### an aborted exchange: a write of the response failed, the worker's shell told the protocol `Closed`
+
+The two halves of "an aborted message closes the connection without processing further requests" when the abort is seen
+by the WRITER (the reader is parked behind a pipelined request and does not read the end of the stream):
+* shell (`HC/Conn/Shell.lean`, `Runtime` records extracted from the two `tcp_server.py`): a `send(RawData)` that cannot be
+  written calls `protocol.handle(Closed())` - for both workers (`failed_write_tells_protocol`);
+* protocol: from then on (`self.closed` set while h11's reader side is past IDLE) no op whatsoever - the application
+  finishing its response into the void, h11 reaching DONE / DONE, the released reader looping - recycles the connection or
+  starts another instance, and a `Request` event is not enabled (`aborted_exchange_never_reused`). -/
+
+/-- `self.closed` is set while h11's reader side is past IDLE (a request is in progress, or complete and not recycled);
+    `n` application instances started and `c` recycles so far -/
+def Lost (n c : Nat) (st : St) : Prop := st.closed = true ∧ st.lib.client ≠ .idle ∧ st.spawns = n ∧ st.cycles = c
+
+private theorem lost_mk (n c : Nat) (st st' : St) (h : Lost n c st) (h1 : st'.closed = st.closed) (h2 : st'.lib.client ≠ .idle)
+    (h3 : st'.spawns = st.spawns) (h4 : st'.cycles = st.cycles) : Lost n c st' := by
+  unfold Lost at *; rw [h1, h3, h4]; exact ⟨h.1, h2, h.2.2.1, h.2.2.2⟩
+
+private theorem libSend_keeps (st : St) (e : LibSend) : (libSend st e).1.closed = st.closed ∧ (libSend st e).1.spawns = st.spawns ∧
+    (libSend st e).1.cycles = st.cycles := by
+  unfold libSend
+  cases e <;> simp only [] <;> split <;> exact ⟨rfl, rfl, rfl⟩
+
+private theorem libSend_lost (n c : Nat) (st : St) (e : LibSend) (h : Lost n c st) : Lost n c (libSend st e).1 :=
+  lost_mk n c st _ h (libSend_keeps st e).1 (libSend_client st e h.2.1) (libSend_keeps st e).2.1 (libSend_keeps st e).2.2
+
+private theorem closeStream_keeps (st : St) : (closeStream st).1.closed = st.closed ∧ (closeStream st).1.lib = st.lib ∧
+    (closeStream st).1.spawns = st.spawns ∧ (closeStream st).1.cycles = st.cycles := by
+  unfold closeStream; (repeat' split) <;> simp [St.setObj]
+
+private theorem closeStream_lost (n c : Nat) (st : St) (h : Lost n c st) : Lost n c (closeStream st).1 := by
+  obtain ⟨k1, k2, k3, k4⟩ := closeStream_keeps st
+  exact lost_mk n c st _ h k1 (by rw [k2]; exact h.2.1) k3 k4
+
+/-- with `self.closed` set, the end of a stream never recycles: `not self.closed` is the first conjunct of the test -/
+private theorem maybeRecycle_lost (n c : Nat) (st : St) (h : Lost n c st) : Lost n c (maybeRecycle st).1 := by
+  have hc := closeStream_lost n c st h
+  unfold maybeRecycle
+  simp only []
+  split
+  · rename_i hcond
+    exfalso
+    have h1 : (closeStream st).1.closed = true := hc.1
+    simp [h1] at hcond
+  · exact ⟨rfl, hc.2.1, hc.2.2.1, hc.2.2.2⟩
+
+private theorem httpStreamSend_lost (n c : Nat) (cfg : Cfg) (st : St) (e : Http.Ev) (h : Lost n c st) : Lost n c (httpStreamSend cfg st e).1 := by
+  cases e <;> simp only [httpStreamSend]
+  · split <;> exact libSend_lost n c _ _ h
+  · exact h
+  · exact libSend_lost n c _ _ h
+  · exact libSend_lost n c _ _ h
+  · exact h
+  · exact h
+  · exact maybeRecycle_lost n c st h
+  · exact h
+  · exact h
+
+private theorem wsStreamSend_lost (n c : Nat) (cfg : Cfg) (st : St) (e : Ws.Ev) (h : Lost n c st) : Lost n c (wsStreamSend cfg st e).1 := by
+  cases e <;> simp only [wsStreamSend]
+  · split <;> exact libSend_lost n c _ _ h
+  · exact libSend_lost n c _ _ h
+  · exact libSend_lost n c _ _ h
+  · exact h
+  · exact h
+  · exact maybeRecycle_lost n c st h
+  · exact h
+  · exact h
+  · exact h
+
+private theorem runHttpEvs_lost (n c : Nat) (cfg : Cfg) : ∀ (evs : List Http.Ev) (st : St), Lost n c st → Lost n c (runHttpEvs cfg st evs).1 := by
+  intro evs
+  induction evs with
+  | nil => intro st h; exact h
+  | cons e es ih =>
+    intro st h
+    simp only [runHttpEvs]
+    have h1 := httpStreamSend_lost n c cfg st e h
+    split
+    · exact h1
+    · exact ih _ h1
+
+private theorem runWsEvs_lost (n c : Nat) (cfg : Cfg) : ∀ (evs : List Ws.Ev) (st : St), Lost n c st → Lost n c (runWsEvs cfg st evs).1 := by
+  intro evs
+  induction evs with
+  | nil => intro st h; exact h
+  | cons e es ih =>
+    intro st h
+    simp only [runWsEvs]
+    have h1 := wsStreamSend_lost n c cfg st e h
+    split
+    · exact h1
+    · exact ih _ h1
+
+private theorem setObj_lost (n c : Nat) (st : St) (i : Nat) (o : Stream) (h : Lost n c st) : Lost n c (st.setObj i o) := h
+
+private theorem loopTop_lost (n c : Nat) (cfg : Cfg) (st : St) (h : Lost n c st) : Lost n c (loopTop cfg st).1 := by
+  unfold loopTop
+  split
+  · exact libSend_lost n c _ _ h
+  · exact h
+
+private theorem lost_lib (n c : Nat) (st : St) (lib' : H11M.St) (h : Lost n c st) (hc : lib'.client ≠ .idle) :
+    Lost n c { st with lib := lib' } := ⟨h.1, hc, h.2.2.1, h.2.2.2⟩
+
+private theorem lost_pc (n c : Nat) (st : St) (p : Pc) (h : Lost n c st) : Lost n c { st with pc := p } := h
+
+private theorem onLibEvBody_lost (n c : Nat) (cfg : Cfg) (st : St) (o0 : List Out) (e : LibEv) (s1 : St) (o1 : List Out)
+    (hL : Lost n c st) (h : onLibEvBody cfg st o0 e = some (s1, o1)) : Lost n c s1 := by
+  cases e with
+  | protoError hint =>
+    simp only [onLibEvBody] at h
+    have hl := lost_lib n c st _ hL (recvError_client st.lib)
+    split at h
+    · simp only [Option.some.injEq, Prod.mk.injEq] at h
+      obtain ⟨rfl, _⟩ := h
+      exact lost_pc n c _ _ hl
+    · split at h
+      all_goals
+        simp only [Option.some.injEq, Prod.mk.injEq] at h
+        obtain ⟨rfl, _⟩ := h
+      · exact libSend_lost n c _ _ (libSend_lost n c _ _ hl)
+      · exact hl
+  | request r =>
+    -- h11 yields a `Request` only from IDLE
+    simp only [onLibEvBody] at h
+    split at h
+    · cases h
+    · rename_i lib' hl
+      exact absurd (recvRequest_client _ _ _ hl).2 hL.2.1
+  | paused =>
+    simp only [onLibEvBody] at h
+    split at h <;> (simp only [Option.some.injEq, Prod.mk.injEq] at h; obtain ⟨rfl, _⟩ := h; exact hL)
+  | needData =>
+    simp only [onLibEvBody, Option.some.injEq, Prod.mk.injEq] at h
+    obtain ⟨rfl, _⟩ := h
+    exact hL
+  | connClosed =>
+    simp only [onLibEvBody] at h
+    split at h
+    · cases h
+    · rename_i lib' hl
+      simp only [Option.some.injEq, Prod.mk.injEq] at h
+      obtain ⟨rfl, _⟩ := h
+      exact lost_pc n c _ _ (lost_lib n c st _ hL (stepClient_client _ _ _ hl))
+  | data d =>
+    simp only [onLibEvBody] at h
+    split at h
+    · cases h
+    · rename_i lib' hl
+      have hc : lib'.client ≠ .idle := by
+        simp only [H11M.recvData, Option.map_eq_some_iff] at hl
+        obtain ⟨x, hx, rfl⟩ := hl
+        simpa using stepClient_client _ _ _ hx
+      have hl' := lost_lib n c st _ hL hc
+      (repeat' split at h) <;> (try (cases h; done)) <;>
+        (simp only [Option.some.injEq, Prod.mk.injEq] at h; obtain ⟨rfl, _⟩ := h; exact hl')
+  | eom =>
+    simp only [onLibEvBody] at h
+    split at h
+    · cases h
+    · rename_i lib' hl
+      have hc : lib'.client ≠ .idle := by
+        simp only [H11M.recvEom, Option.map_eq_some_iff] at hl
+        obtain ⟨x, hx, rfl⟩ := hl
+        simpa using stepClient_client _ _ _ hx
+      have hl' := lost_lib n c st _ hL hc
+      (repeat' split at h) <;> (try (cases h; done)) <;>
+        (simp only [Option.some.injEq, Prod.mk.injEq] at h; obtain ⟨rfl, _⟩ := h; exact hl')
+  | wsData d evs =>
+    simp only [onLibEvBody] at h
+    (repeat' split at h) <;> (try (cases h; done))
+    · simp only [Option.some.injEq, Prod.mk.injEq] at h
+      obtain ⟨rfl, _⟩ := h
+      exact runWsEvs_lost n c cfg _ _ (setObj_lost n c _ _ _ hL)
+    · simp only [Option.some.injEq, Prod.mk.injEq] at h
+      obtain ⟨rfl, _⟩ := h
+      exact runWsEvs_lost n c cfg _ _ (setObj_lost n c _ _ _ hL)
+    · simp only [Option.some.injEq, Prod.mk.injEq] at h
+      obtain ⟨rfl, _⟩ := h
+      exact hL
+
+/-- `Lost` is preserved by every op: library events, sends of any application (current or orphaned), closes, termination -/
+theorem lost_step (n c : Nat) (cfg : Cfg) (token : Bytes → Bytes) (ext : Option Bytes) (st st' : St) (op : Op) (outs : List Out)
+    (err : Option PyErr) (hL : Lost n c st) (hs : step cfg token ext st op = some (st', outs, err)) : Lost n c st' := by
+  cases op with
+  | begin =>
+    simp only [step] at hs
+    split at hs <;> simp at hs
+    obtain ⟨rfl, _, _⟩ := hs
+    exact hL
+  | terminate =>
+    simp only [step, Option.some.injEq, Prod.mk.injEq] at hs
+    obtain ⟨rfl, _, _⟩ := hs
+    exact hL
+  | closed =>
+    simp only [step, Option.some.injEq, Prod.mk.injEq] at hs
+    obtain ⟨rfl, _, _⟩ := hs
+    have hc := closeStream_lost n c st hL
+    exact ⟨rfl, hc.2.1, hc.2.2.1, hc.2.2.2⟩
+  | sendHttp i m =>
+    simp only [step, Option.some.injEq] at hs
+    have : Lost n c (appSendHttp cfg st i m).1 := by
+      unfold appSendHttp
+      split
+      · simp only []
+        split
+        · exact setObj_lost n c _ _ _ (runHttpEvs_lost n c cfg _ _ (setObj_lost n c _ _ _ hL))
+        · exact runHttpEvs_lost n c cfg _ _ (setObj_lost n c _ _ _ hL)
+      · exact hL
+    rw [hs] at this; exact this
+  | sendWs i m =>
+    simp only [step, Option.some.injEq] at hs
+    have : Lost n c (appSendWs cfg token ext st i m).1 := by
+      unfold appSendWs
+      split
+      · simp only []
+        split
+        · exact setObj_lost n c _ _ _ (runWsEvs_lost n c cfg _ _ (setObj_lost n c _ _ _ hL))
+        · exact runWsEvs_lost n c cfg _ _ (setObj_lost n c _ _ _ hL)
+      · exact hL
+    rw [hs] at this; exact this
+  | ev e =>
+    simp only [step, Option.map_eq_some_iff] at hs
+    obtain ⟨⟨s1, o1⟩, hev, heq⟩ := hs
+    simp only [Prod.mk.injEq] at heq
+    obtain ⟨rfl, _, _⟩ := heq
+    unfold onLibEv at hev
+    split at hev
+    · cases hev
+    · exact onLibEvBody_lost n c cfg _ _ e _ _ (loopTop_lost n c cfg st hL) hev
+
+/-- in a `Lost` state a `Request` event is not enabled: h11 yields one only from IDLE -/
+theorem lost_no_request (n c : Nat) (cfg : Cfg) (token : Bytes → Bytes) (ext : Option Bytes) (st : St) (r : ReqEv) (hL : Lost n c st) :
+    step cfg token ext st (.ev (.request r)) = none := by
+  cases hres : step cfg token ext st (.ev (.request r)) with
+  | none => rfl
+  | some res =>
+    exfalso
+    simp only [step, Option.map_eq_some_iff] at hres
+    obtain ⟨⟨s1, o1⟩, hev, _⟩ := hres
+    unfold onLibEv at hev
+    split at hev
+    · cases hev
+    · simp only [onLibEvBody] at hev
+      split at hev
+      · cases hev
+      · rename_i lib' hl
+        exact (loopTop_lost n c cfg st hL).2.1 (recvRequest_client _ _ _ hl).2
+
+/-- **the worker tells the protocol when a write fails** (both workers, `Runtime` records extracted from the two
+    `tcp_server.py` on every run): a `send(RawData)` on a transport that is broken or already closed, and a write that fails
+    later in `drain()`, each call `protocol.handle(Closed())` - at once, not through the read loop, which is parked behind a
+    pipelined request exactly when it matters and would never see the end of the stream -/
+theorem failed_write_tells_protocol (rt : Conn.Shell.Runtime) (hrt : rt = Extracted.Runtime.asyncioRt ∨ rt = Extracted.Runtime.trioRt)
+    (s s' : Conn.Shell.St) :
+    (∀ d, (s.transportClosed = true ∨ s.writeBroken = true) → Conn.Shell.step rt s (.pRaw d) = some s' →
+      s'.handled = s.handled ++ [(.closed, !s.transportClosed)]) ∧
+    (Conn.Shell.step rt s .drainFail = some s' → s'.handled = s.handled ++ [(.closed, !s.transportClosed)]) := by
+  have hw : rt.writeErrorClosesProtocol = true := by rcases hrt with rfl | rfl <;> rfl
+  constructor
+  · intro d hb h
+    have hb' : (s.transportClosed || s.writeBroken) = true := by rcases hb with hb | hb <;> simp [hb]
+    simp only [Conn.Shell.step, hb', hw, if_true, Option.some.injEq] at h
+    subst h
+    rfl
+  · intro h
+    simp only [Conn.Shell.step, hw, if_true, Option.some.injEq] at h
+    subst h
+    rfl
+
+/-- **an aborted exchange ends the connection's reuse for good**: in any state in which h11 is inside an exchange (its reader
+    side is past IDLE: a request is being read or answered - in particular whenever a stream is live, `Inv`), once the protocol
+    is told `Closed` (the worker does so when a write of the response fails: `failed_write_tells_protocol`), then after ANY
+    further ops - the application finishing its response into the void so that h11 reaches DONE / DONE, the reader released
+    from behind a parked pipelined request - no further instance has been started, the connection has not been recycled, and
+    h11 cannot even yield the pipelined `Request` -/
+theorem aborted_exchange_never_reused (cfg : Cfg) (token : Bytes → Bytes) (ext : Option Bytes) (ops : List Op) (st st1 st' : St)
+    (o : List Out) (e : Option PyErr) (r : ReqEv)
+    (hbusy : st.lib.client ≠ .idle)
+    (hc : step cfg token ext st .closed = some (st1, o, e))
+    (h' : runOps (next cfg token ext) st1 ops = some st') :
+    st'.spawns = st.spawns ∧ st'.cycles = st.cycles ∧ st'.closed = true ∧ step cfg token ext st' (.ev (.request r)) = none := by
+  have h1 : Lost st.spawns st.cycles st1 := by
+    simp only [step, Option.some.injEq, Prod.mk.injEq] at hc
+    obtain ⟨rfl, _, _⟩ := hc
+    obtain ⟨_, k2, k3, k4⟩ := closeStream_keeps st
+    exact ⟨rfl, by simpa [k2] using hbusy, k3, k4⟩
+  have hL : Lost st.spawns st.cycles st' := by
+    refine inv_runOps (next cfg token ext) (Lost st.spawns st.cycles) (fun _ => True) ?_ ops st1 st' h1 (fun _ _ => trivial) h'
+    intro s op s' _ hI hs
+    simp only [next, Option.map_eq_some_iff] at hs
+    obtain ⟨⟨s2, o2, e2⟩, hstep, rfl⟩ := hs
+    exact lost_step _ _ cfg token ext s s2 op o2 e2 hI hstep
+  exact ⟨hL.2.2.1, hL.2.2.2, hL.1, lost_no_request _ _ cfg token ext st' r hL⟩
+
+/-- … in particular whenever a stream is live in a reachable state (a response can only be written for a live stream) -/
+theorem live_stream_is_busy (cfg : Cfg) (token : Bytes → Bytes) (ext : Option Bytes) (ops : List Op) (st : St)
+    (h : runOps (next cfg token ext) {} ops = some st) (hcur : st.cur.isSome = true) : st.lib.client ≠ .idle :=
+  inv_reachable cfg token ext ops st h hcur
+
 -- non-vacuity: a two-request pipeline in one read, the second parked until the first response completed
 example :
     let req : ReqEv := { method := "GET".b, target := "/a".b, headers := [("host".b, "x".b)], version := "1.1".b }
@@ -788,6 +1091,28 @@ example :
       .sendHttp 0 (some (.start (some 200) (some [(.bytes "Connection".b, .bytes "close".b)]) false)), .sendHttp 0 (some (.body none false))]
     ((runOps (next { keepAliveMax := 10 } (fun _ => []) none) {} ops).map (fun s => (s.lib.keepAlive, s.cycles, s.closed, s.cur,
       (onLibEv { keepAliveMax := 10 } s (.request req)).isSome))) = some (false, 0, true, none, false) := by
+  decide
+
+-- non-vacuity: two pipelined requests in one read, the reader parked behind the second; the write of response 1's head fails and
+-- the worker tells the protocol `Closed` (the same ops WITHOUT `.closed` recycle and accept the second request: first example
+-- above): the released reader meets PAUSED again and leaves, whatever the application still sends goes nowhere, nothing is
+-- recycled, no second instance, and the pipelined `Request` is not enabled
+set_option maxRecDepth 8000 in
+example :
+    let req : ReqEv := { method := "GET".b, target := "/a".b, headers := [("host".b, "x".b)], version := "1.1".b }
+    let ops : List Op := [.begin, .ev (.request req), .ev .eom, .ev .paused,
+      .sendHttp 0 (some (.start (some 200) (some []) false)), .closed, .ev .paused,
+      .sendHttp 0 (some (.body none false)), .sendHttp 0 none]
+    ((runOps (next { keepAliveMax := 10 } (fun _ => []) none) {} ops).map (fun s => (s.cycles, s.spawns, s.closed, s.cur,
+      decide (s.pc = .idle), (step { keepAliveMax := 10 } (fun _ => []) none s (.ev (.request req))).isSome))) =
+      some (0, 1, true, none, true, false) := by
+  decide
+
+-- non-vacuity of `failed_write_tells_protocol`: on a broken transport the asyncio shell's log of `protocol.handle` calls gains
+-- exactly `Closed` (transport still open), nothing is written
+example :
+    ((Conn.Shell.run Extracted.Runtime.asyncioRt {} [.read [71], .peerGone, .pRaw [72]]).map (fun s => (s.handled, s.written))) =
+      some ([(.raw [71], true), (.closed, true)], []) := by
   decide
 
 end HC.Props.C06
